@@ -299,4 +299,4 @@ ASSUME = ['the similarity functions of the alphabet are trusted as given; the re
 if __name__ == '__main__':
     tier = sys.argv[1] if len(sys.argv) > 1 else 'quick'
     sys.exit(run_check('C05', tier, layers(tier), assumptions=ASSUME,
-                       cap_s=300 if tier == 'quick' else 6000))
+                       cap_s=900 if tier == 'quick' else 7200))
